@@ -320,7 +320,45 @@ def strat(tier, opts):
 
 
 def check_case(case, opts):
+    if case.get("shape"):
+        return check_shape_case(case, opts)
     return check_mut_case(case, opts)
+
+
+def check_shape_case(case, opts):
+    """valid images of an extreme shape written by gensquashfs itself: 'chain' = one directory inside the other, depth levels deep"""
+    depth = case["depth"]
+    with Scratch("c05s") as sc:
+        lf = os.path.join(sc, "l.txt")
+        with open(lf, "wb") as fh:
+            fh.write(b"dir " + b"/a" * depth + b" 0755 0 0\nfile " + b"/a" * min(depth, 50) + b"/f 0644 0 0 l.txt\n")
+        p = os.path.join(sc, "deep.sqfs")
+        r0 = vcommon.run([vcommon.tool("plain", "gensquashfs"), "-q", "-c", "gzip", "-F", lf, "-D", sc, p], timeout=120)
+        if r0.rc != 0 or r0.timeout:
+            raise Inconclusive("could not build the image: %s" % r0.err[-200:])
+        q = os.path.join(sc, "clean.sqfs")
+        with open(q, "wb") as fh:
+            fh.write(sqfswrite.build(sqfswrite.simple_tree(), pad=4096)[0])
+        out = os.path.join(sc, "unp")
+        os.mkdir(out)
+        rd = vcommon.tool(case.get("variant", "asan"), "rdsquashfs")
+        cmds = {"describe": [rd, "-d", p], "list": [rd, "-l", "/", p], "stat": [rd, "-s", "/a/a/a", p], "unpack": [rd, "-u", "/", "-p", out, "-q", p],
+                "sqfs2tar": [vcommon.tool(case.get("variant", "asan"), "sqfs2tar"), p], "sqfsdiff": [vcommon.tool(case.get("variant", "asan"), "sqfsdiff"), "-a", p, "-b", q],
+                "sqfsdiff_self": [vcommon.tool(case.get("variant", "asan"), "sqfsdiff"), "-a", p, "-b", p]}
+        cl = []
+        for tool, cmd in cmds.items():
+            if tool == "sqfs2tar" and depth > 5000:
+                continue            # (every member carries its full path: the archive grows with the square of the depth)
+            r = vcommon.run(cmd, timeout=120, cwd=sc, stdout_file=os.path.join(sc, "stdout.bin"))
+            what = "%s on a valid image with %d nested directories" % (tool, depth)
+            if r.timeout:
+                raise Violation("%s does not terminate (120 s)" % what, None, sig="hang-shape")
+            if r.sanitizer():
+                raise Violation("%s: %s" % (what, r.sanitizer()), r.err.decode(errors="replace")[-1200:], sig="crash")
+            if r.rc not in (0, 1, 2) or (r.rc == 2 and not tool.startswith("sqfsdiff")):
+                raise Violation("%s: exit status %s" % (what, r.rc), r.err.decode(errors="replace")[-500:], sig="odd-status")
+            cl.append("shape_chain_%s_rc%d" % (tool, r.rc))
+        return CaseInfo(True, cl)
 
 
 def _flag_job(args):
@@ -440,8 +478,21 @@ def main(tier, seed, scale=1.0):
                     seen_what.add(what.split(":")[0])
                     res.violations.append((what, vcommon.save_replay(PROP, case, what)))
         res.nt_count += len(res.nontrivial)
+    # valid images of extreme shape: directory chains deep enough to exhaust the stack of a recursive walk (the sanitizer build uses
+    # larger frames, the plain build needs about 50000 levels with an 8 MiB stack)
+    for sc_ in ([dict(shape="chain", depth=30000), dict(shape="chain", depth=400), dict(shape="chain", depth=4500), dict(shape="chain", depth=60000, variant="plain")] if scale >= 0.2 else []):
+        res.evaluations += 1
+        try:
+            ci = check_shape_case(sc_, opts)
+            res.nontrivial.add(vcommon.case_hash(sc_))
+            for c in ci.classes:
+                res.add_class(c)
+        except Violation as v:
+            res.violations.append((str(v), vcommon.save_replay(PROP, sc_, str(v))))
+        except Inconclusive:
+            res.add_class("shape_inconclusive")
     vcommon.run_corpus(PROP, check_case, opts, res)
-    res.rule = ("(a) coverage-guided libFuzzer (ASan+UBSan) over the reader API as used by the tools, 10 jobs, seeded with Python- and "
+    res.rule = ("(d) valid images with 400 / 4500 / 30000 / 60000 nested directories through every tool; (a) coverage-guided libFuzzer (ASan+UBSan) over the reader API as used by the tools, 10 jobs, seeded with Python- and "
                 "tool-written images of every compressor and from an empty corpus; non-trivial = input passed sqfs_super_read (counted in the "
                 "target: super_ok; tree_ok = full hierarchy decoded); (c) Hypothesis: 1-3 layout fields of a Python-written image set to "
                 "boundary/other-object values, directory loops, then rdsquashfs -l/-d/-s/-x/-c/-u, sqfs2tar, sqfsdiff (ASan) with a time "
